@@ -192,6 +192,11 @@ func newPoolRouter(hook, caching bool) *poolRouter {
 				qv := c.QueryValues() // the handler's own copy to edit (eg to build the link to the next page)
 				qv.Set("limit", "10")
 				qv.Del("token")
+			case "datawrite":
+				// the handler writes through the map Data() hands out (its request's data), without calling Set first
+				if d := c.Data(); d != nil {
+					d["k2"] = "v2"
+				}
 			case "copy":
 				// a middleware wraps the writer for its request; the handler hands a copy of the context to a background job
 				c.Resp = &tagWriter{ResponseWriter: c.Resp, tag: "[job]"}
@@ -303,7 +308,7 @@ func poolReplay(s *Summary, raw json.RawMessage) {
 	// histories (one per model state and step) need not contain them in front of every kind of request. For the short
 	// histories each of them is therefore added to the first request and the last request is compared with the fresh twin.
 	if len(c.H) == 2 {
-		for _, latent := range []string{"renderfail", "sethandlers", "query", "delegate", "params", "allowed", "copy"} {
+		for _, latent := range []string{"renderfail", "sethandlers", "query", "delegate", "params", "allowed", "copy", "datawrite"} {
 			first := c.H[0]
 			first.Muts = append(append([]string{}, first.Muts...), latent)
 			pv := newPoolRouter(hook, caching)
